@@ -1055,3 +1055,195 @@ Proof.
   exists (mkProd (aug_nt c) [NT (start_nt c)]). split; [|reflexivity].
   apply get_prod_g0_0. apply plain_ok_plain. exact Hok.
 Qed.
+
+(* ---- the other half: the model's table passes table_struct ------------------------------------ *)
+From PV Require Import Validators.TableStruct.
+
+Lemma unresolved_origin w : forall acts t l a,
+  In (t, l) (fold_left raw_step w acts) -> In a l ->
+  (exists l0, In (t, l0) acts /\ In a l0) \/ (exists p, a = Reduce p /\ In (p, t) w).
+Proof.
+  induction w as [|[p t0] w IH]; intros acts t l a Hin Ha; cbn [fold_left] in Hin.
+  - left. exists l. auto.
+  - destruct (IH _ _ _ _ Hin Ha) as [(l0 & Hl0 & Ha0)|(q & -> & Hq)].
+    + unfold raw_step in Hl0. destruct (assoc t0 acts) as [l1|] eqn:E1.
+      * apply In_aset in Hl0. destruct Hl0 as [[-> ->]|Hl0].
+        -- apply in_app_iff in Ha0. destruct Ha0 as [Ha0|[<-|[]]].
+           ++ left. exists l1. split; [apply assoc_In; exact E1|exact Ha0].
+           ++ right. exists p. split; [reflexivity|left; reflexivity].
+        -- left. exists l0. auto.
+      * apply In_aset in Hl0. destruct Hl0 as [[-> ->]|Hl0].
+        -- destruct Ha0 as [<-|[]]. right. exists p. split; [reflexivity|left; reflexivity].
+        -- left. exists l0. auto.
+    + right. exists q. split; [reflexivity|right; exact Hq].
+Qed.
+
+Section BuiltStruct.
+  Variable c : tconf.
+  Hypothesis Hpl : plain c.
+
+  Notation e := (tc_empty c).
+  Notation stop := (tc_stop c).
+  Notation ps := (tc_prods c).
+  Notation g := (cfg_of c).
+  Notation g0 := (cfg_std c).
+  Notation s0 := (start_nt c).
+
+  Variables (fo : fsets) (all : list mstate) (t : table).
+  Hypothesis Hinv : sinv ps e stop (length all) all.
+  Hypothesis Hpinv : pinv ps e stop all.
+  Hypothesis Ht : reduce_all c fo all all = Some t.
+
+  Lemma items_eq s st : nth_error all s = Some st -> items t s = pds (ms_items st).
+  Proof.
+    intros Hs. unfold items, get_state. rewrite (table_state c Hpl fo all t Ht s st Hs). reflexivity.
+  Qed.
+
+  Lemma sym_at_0 k : sym_at ps e 0 k = nth_error [NT s0; T stop] k.
+  Proof. rewrite (sym_at_strip c Hpl), (rhs_raw_0 c Hpl), (strip_prod0 c Hpl). reflexivity. Qed.
+
+  (* the symbol before the dot, in the grammar of Spec/Cfg.v *)
+  Lemma sym_at_g0 p d X : sym_at ps e p d = Some X -> sym_eqb X (T stop) = false ->
+    exists pr, get_prod g0 p = Some pr /\ nth_error (rhs pr) d = Some X.
+  Proof.
+    intros Hs Hns. destruct (N.eq_dec p 0) as [->|Hne].
+    - rewrite sym_at_0 in Hs. exists (mkProd (aug_nt c) [NT s0]). split; [apply (get_prod_g0_0 c Hpl)|].
+      destruct d as [|[|d]]; cbn in Hs |- *; [exact Hs| |destruct d; discriminate].
+      inversion Hs; subst X. rewrite sym_eqb_refl in Hns. discriminate.
+    - rewrite (get_prod_g0 c Hpl p Hne). rewrite (sym_at_strip c Hpl) in Hs. unfold rhs_raw in Hs.
+      destruct (nth_error ps (N.to_nat p)) as [praw|]; [|destruct d; discriminate].
+      eexists. split; [reflexivity|exact Hs].
+  Qed.
+
+  Lemma edge_ok_built s st X tgt :
+    nth_error all s = Some st -> sym_eqb X (T stop) = false ->
+    kernel_from ps e all st X tgt -> edge_ok g0 t s X tgt = true.
+  Proof.
+    intros Hs Hns (Hne & st' & Ht' & Hk). unfold edge_ok. apply andb_true_iff. split.
+    - apply negb_true_iff. apply Nat.eqb_neq. exact Hne.
+    - rewrite (items_eq tgt st' Ht'), (items_eq s st Hs). apply forallb_forall. intros [p d] Hin.
+      cbn [fst snd]. destruct d as [|d']; [reflexivity|]. destruct (Hk p d' Hin) as [Hsrc Hsym].
+      apply andb_true_iff. split; [apply has_item_In; exact Hsrc|].
+      destruct (sym_at_g0 p d' X Hsym Hns) as (pr & Hp & Hn). rewrite Hp, Hn.
+      apply osym_eqb_eq. reflexivity.
+  Qed.
+
+  Lemma stop_item p d : sym_at ps e p d = Some (T stop) -> p = 0 /\ d = 1%nat.
+  Proof.
+    intros Hs. destruct (N.eq_dec p 0) as [->|Hne].
+    - split; [reflexivity|]. rewrite sym_at_0 in Hs. destruct d as [|[|d]]; cbn in Hs; try discriminate;
+        [reflexivity|destruct d; discriminate].
+    - exfalso. rewrite (sym_at_strip c Hpl) in Hs. unfold rhs_raw in Hs.
+      destruct (nth_error ps (N.to_nat p)) as [praw|] eqn:Eraw; [|destruct d; discriminate].
+      destruct (ps_shape c Hpl) as (p0 & rest & Eps & _ & _). apply (pl_stop1 c Hpl praw).
+      + rewrite Eps. cbn [tl]. rewrite Eps in Eraw.
+        destruct (N.to_nat p) as [|k] eqn:Ek; [lia|]. cbn in Eraw. eapply nth_error_In. exact Eraw.
+      + apply nth_error_In in Hs. unfold strip in Hs. apply filter_In in Hs. tauto.
+  Qed.
+
+  Lemma state_ok_built s st :
+    nth_error all s = Some st ->
+    state_ok g0 t s (finish_state c st (unresolved g (ritems_of c fo st) (ms_acts st))) = true.
+  Proof.
+    intros Hs. destruct (state_of c all Hinv s st Hs) as [[(Hnd & Hpred & Hvalid) Hkeys] _].
+    destruct (pi_prov _ _ _ _ Hpinv s st Hs) as [Pacts Pgotos].
+    unfold state_ok. cbn [finish_state st_actions st_gotos st_items].
+    apply andb_true_iff. split; [apply andb_true_iff; split|].
+    - (* ACTION cells *)
+      apply forallb_forall. intros [y l] Hin. cbn [fst snd]. apply forallb_forall. intros a Ha.
+      unfold sort_cells in Hin. apply (Permutation_in _ (DetermProofs.sort_by_perm _ _)) in Hin.
+      unfold unresolved in Hin.
+      destruct (unresolved_origin _ _ _ _ _ Hin Ha) as [(l0 & Hl0 & Ha0)|(p & -> & Hw)].
+      + specialize (Pacts y l0 Hl0). destruct (N.eqb_spec y stop) as [->|Hne].
+        * destruct Pacts as (-> & p & d & Hpd & Hsym). destruct Ha0 as [<-|[]].
+          cbn [action_ok]. destruct (stop_item p d Hsym) as [-> ->].
+          rewrite (items_eq s st Hs). apply has_item_In. exact Hpd.
+        * destruct Pacts as (tgt & -> & Hk). destruct Ha0 as [<-|[]]. cbn [action_ok].
+          apply (edge_ok_built s st (T y) tgt Hs); [|exact Hk].
+          cbn. apply N.eqb_neq. exact Hne.
+      + (* a reduction comes from an item with the dot at the end *)
+        cbn [action_ok]. unfold work_of in Hw. apply in_flat_map in Hw. destruct Hw as (rit & Hrit & Hw).
+        destruct (at_end g rit) eqn:Eend; [|destruct Hw]. apply in_map_iff in Hw. destruct Hw as (y' & Heq & _).
+        inversion Heq; subst y'. unfold ritems_of in Hrit. apply in_map_iff in Hrit.
+        destruct Hrit as (it & <- & Hit). cbn [ri_prod] in *. unfold at_end in Eend. cbn [ri_dot ri_prod] in Eend.
+        apply Nat.eqb_eq in Eend. rewrite (rhs_of_g c Hpl) in Eend.
+        assert (Hin' : In (it_p it, it_d it) (pds (ms_items st))) by (apply pds_In; exists it; auto).
+        assert (Hne : it_p it <> 0).
+        { intros E0. rewrite E0 in *. rewrite (rhs_raw_0 c Hpl), (strip_prod0 c Hpl) in Eend. cbn in Eend.
+          rewrite Eend in Hin'. destruct (Hpred 0 1%nat Hin') as (X & HX & Hns). rewrite sym_at_0 in HX.
+          cbn in HX. inversion HX; subst X. rewrite sym_eqb_refl in Hns. discriminate. }
+        pose proof (Hvalid _ _ Hin') as Hv. rewrite (get_prod_g0 c Hpl _ Hne).
+        destruct (nth_error ps (N.to_nat (it_p it))) as [praw|] eqn:Eraw; [|apply nth_error_None in Eraw; lia].
+        cbn [option_map rhs]. rewrite (items_eq s st Hs). apply has_item_In.
+        unfold rhs_raw in Eend. rewrite Eraw in Eend. rewrite <- Eend. exact Hin'.
+    - (* GOTOs *)
+      apply forallb_forall. intros [b tgt] Hin. cbn [fst snd].
+      apply (edge_ok_built s st (NT b) tgt Hs); [reflexivity|apply Pgotos; exact Hin].
+    - (* (0, 0) only in state 0 *)
+      destruct s as [|s]; [reflexivity|]. cbn [Nat.eqb orb]. apply negb_true_iff.
+      destruct (has_item (map (fun it => (it_p it, it_d it)) (ms_items st)) 0 0) eqn:E; [|reflexivity].
+      exfalso. apply has_item_In in E. change (map _ (ms_items st)) with (pds (ms_items st)) in E.
+      destruct (pi_kernel _ _ _ _ Hpinv (S s) st ltac:(discriminate) Hs) as (p & d & Hk).
+      pose proof (pi_zero _ _ _ _ Hpinv (S s) st Hs E p (S d) Hk). discriminate.
+  Qed.
+
+  Theorem table_struct_built : table_struct g0 t s0 = true.
+  Proof.
+    unfold table_struct. apply andb_true_iff. split; [apply andb_true_iff; split|].
+    - assert (Hgen : forall k l, (forall j stt, nth_error l j = Some stt -> state_ok g0 t (k + j) stt = true) ->
+                                 states_ok g0 t k l = true).
+      { intros k l. revert k. induction l as [|x r IH]; intros k H; cbn [states_ok]; [reflexivity|].
+        apply andb_true_iff. split.
+        - specialize (H 0%nat x eq_refl). rewrite Nat.add_0_r in H. exact H.
+        - apply IH. intros j stt Hj. specialize (H (S j) stt Hj).
+          replace (S k + j)%nat with (k + S j)%nat by lia. exact H. }
+      apply Hgen. intros j stt Hj. cbn [Nat.add].
+      destruct (nth_error all j) as [st|] eqn:Es.
+      + rewrite (table_state c Hpl fo all t Ht j st Es) in Hj. inversion Hj; subst stt.
+        apply (state_ok_built j st Es).
+      + exfalso. apply nth_error_None in Es. assert (j < length t)%nat by (apply nth_error_Some; congruence).
+        rewrite (table_length c fo all t Ht) in *. lia.
+    - destruct (si_state0 _ _ _ _ _ Hinv) as (st0 & Hs0 & Hin0). rewrite (items_eq 0 st0 Hs0).
+      apply forallb_forall. intros [p d] Hin. cbn [snd]. apply Nat.eqb_eq.
+      exact (pi_zero _ _ _ _ Hpinv 0%nat st0 Hs0 Hin0 p d Hin).
+    - rewrite (get_prod_g0_0 c Hpl). cbn [rhs]. apply (list_eqb_eq sym_eqb sym_eqb_eq). reflexivity.
+  Qed.
+End BuiltStruct.
+
+Theorem model_table_struct c b :
+  plain_ok c = true -> create_table c = BOk b ->
+  table_struct (cfg_std c) (tb_table b) (start_nt c) = true.
+Proof.
+  intros Hok H. pose proof (plain_ok_plain c Hok) as Hpl. unfold create_table in H.
+  destruct (first_sets (tc_empty c) (tc_ffuel c) (tc_nnts c) (tc_prods c)) as [fs|] eqn:Hfs; [|discriminate].
+  destruct (find _ (nts_of (tc_nnts c))); [discriminate|].
+  destruct (follow_sets (tc_empty c) (tc_ffuel c) fs (tc_nnts c) (tc_prods c)) as [fo|] eqn:Hfo; [|discriminate].
+  apply bbind_ok in H. destruct H as (all & Hauto & H).
+  destruct (reduce_all c fo all all) as [t|] eqn:Ht; [|discriminate]. inversion H; subst b. clear H.
+  unfold automaton in Hauto. rewrite (pl_swap c Hpl) in Hauto.
+  apply bbind_ok in Hauto. destruct Hauto as (all0 & Hbuild & Hloop).
+  assert (Hne : tc_prods c <> []).
+  { destruct (ps_shape c Hpl) as (p0 & rest & Eps & _). rewrite Eps. discriminate. }
+  assert (Haug : forall p d, sym_at (tc_prods c) (tc_empty c) p d <> Some (NT (lhs_of (tc_prods c) 0))).
+  { intros p d. apply (aug_not_in_raw c Hpl). }
+  pose proof (build_loop_spec _ _ _ _ _ _ _ _ _ _ _ Hbuild (sinv_init _ _ _ Hne)) as Hinv0.
+  pose proof (build_loop_pinv _ _ _ _ _ _ _ Haug _ _ _ _ Hbuild (sinv_init _ _ _ Hne) (pinv_init _ _ _)) as Hp0.
+  cbn [tb_table].
+  destruct (tc_lr1 c).
+  - destruct (lalr_loop_spec _ _ _ _ _ _ _ Hloop) as (Hsame & _).
+    { intros j s Hj. apply (si_done _ _ _ _ _ Hinv0 j s); [|exact Hj]. apply nth_error_Some. congruence. }
+    pose proof (sinv_same_pds _ _ _ _ _ Hsame Hinv0) as Hinv.
+    pose proof (pinv_same_pds _ _ _ _ _ Hsame Hp0) as Hp.
+    exact (table_struct_built c Hpl fo all t Hinv Hp Ht).
+  - inversion Hloop; subst all0. exact (table_struct_built c Hpl fo all t Hinv0 Hp0 Ht).
+Qed.
+
+(* the model's table accepts exactly the derivations of the grammar *)
+Theorem model_table_only_derivations c b :
+  plain_ok c = true -> create_table c = BOk b ->
+  forall (look : N -> N -> N -> N -> Prop) pos d cf tr,
+    nsteps (cfg_std c) (tb_table b) look (init_cfg pos d) cf -> naccepts (tb_table b) look cf tr ->
+    wf_tree (cfg_std c) tr /\ root_sym (cfg_std c) tr = Some (NT (start_nt c)) /\ leaves tr = c_trace cf.
+Proof.
+  intros Hok H look pos d cf tr. apply nlr_sound. apply model_table_struct; assumption.
+Qed.
